@@ -44,9 +44,6 @@ Record bytes_params := {
   byp_ts_le : tsb_params
 }.
 
-(** `s == Sign::T` ([eq] = true) or `s != Sign::T` *)
-Definition sign_test (eq : bool) (s t : sign) : bool :=
-  if eq then sign_eqb s t else negb (sign_eqb s t).
 
 (** * BigUint from u32 words *)
 
